@@ -10,7 +10,7 @@ from ..core.framework import Ctx
 
 SPEC = {
     "modules": ["HC.Props.C14"],
-    "extracted": ["Guards"],
+    "extracted": ["Guards", "LifespanSend"],
     "technique": "Lean 4: executable model of both Lifespan classes and of worker_serve (one timed state machine; every worker / "
                  "CPython / code-path difference a Runtime field, re-measured on the code under test on every run); invariants proved "
                  "preserved by every operation and lifted to every operation list (HC.inv_runOps); `decide` examples and history "
@@ -36,7 +36,9 @@ SPEC = {
                   "f17_run_before_fix, f17_run_wsgi_before_fix, serve_returns_normally_failed_before_fix, "
                   "noreturn_after_shutdown_cancelled_before_fix.  Tie: 18 lifespan scripts x both worker classes x clients "
                   "connecting before/during/after start-up and holding a request across the trigger, real worker_serve on loopback; "
-                  "model outcome compared and property monitors evaluated on every run.",
+                  "model outcome compared and property monitors evaluated on every run; the failure messages are sent with and without their "
+                  "optional `message` key, and the if/elif chain of asgi_send of both workers is regenerated from the source and proved to be the "
+                  "model's send alphabet (asgi_send_dispatch).",
     "level_note": "Trusted: Lean kernel; the hand-written worker model HC/Worker/{Lifespan,Run}.lean (tied by differential runs only); "
                   "the Runtime flags are measured by probes on the code and interpreter under test and must equal the Lean constants "
                   "Runtime.asyncio / Runtime.trio (a mismatch is reported as a disagreement); the trio lifespan task's two aclose() "
@@ -81,6 +83,10 @@ SCRIPTS: Dict[str, List[str]] = {
     "shutdown_unknown": ["recv", "await", "startup_complete", "recv", "unknown"],
     "complete_then_hang": ["recv", "await", "startup_complete", "recv", "shutdown_complete", "hang"],
     "hang_after_startup": ["recv", "await", "startup_complete", "hang"],
+    # the failure messages without the `message` key (optional in the ASGI specification): the same clauses apply
+    "failed_nomsg": ["recv", "await", "startup_failed_nomsg"],
+    "failed_nomsg_await_in_cleanup": ["recv", "await", "startup_failed_nomsg", "await"],
+    "shutdown_failed_nomsg": ["recv", "await", "startup_complete", "recv", "shutdown_failed_nomsg"],
 }
 
 
@@ -91,6 +97,7 @@ def script_facts(script: List[str]) -> dict:
          "runs_after_shutdown_complete": False, "failed_then_await": False, "leaves": None}
     recvs = 0
     pending = False
+    script = [wk.base_act(a) for a in script]       # a failure message is one with or without its optional `message` key
     for i, a in enumerate(script):
         if pending:
             if a == "await":
